@@ -103,7 +103,8 @@ structure St where
   visited : List Key
   bits : List (Key × Nat)   -- typeNameToTypeArguments
   aff : List (Key × Key)    -- typeArgumentToAffectedTypeArguments
-  oof : Bool                -- recursion budget exhausted (cannot happen on well-formed schemas)
+  oof : Bool                -- recursion budget exhausted (cannot happen: the budget exceeds the number of keys)
+  panicked : Bool           -- `TemplateArguments[i]` evaluated with `i` out of range (Go: index panic)
 
 def St.bitsOf (st : St) (k : Key) : List Nat := (st.bits.filter (fun p => p.1 == k)).map (·.2)
 def St.affOf (st : St) (k : Key) : List Key := (st.aff.filter (fun p => p.1 == k)).map (·.2)
@@ -113,9 +114,10 @@ def fillField (rec : St → String → Nat → St) (res : String → Option Stri
     (searching : Option String) (targName : Option String) (st : St) (f : Field) : St :=
   let st := match f.mask, targName with
     | some m, some tn => if m.name == tn then { st with bits := (key, m.bit) :: st.bits } else st
-    | _, _ => st
+    | some _, none => { st with panicked := true }
+    | none, _ => st
   match searching with
-  | none => st
+  | none => { st with panicked := true }
   | some sname =>
     (matchesRef res sname f.ty).foldl (fun st k =>
       let st := if st.visited.contains k then st else rec st k.1 k.2
@@ -139,13 +141,26 @@ def natRoots (s : Schema) : List Key :=
     | none => []
     | some c => (c.targs.zipIdx.filter (fun p => p.1.isNat)).map (fun p => (T, p.2)))
 
-def dfsFuel (s : Schema) : Nat := (s.map (fun c => c.targs.length)).sum + 1
+mutual
+  def maxArityRef : TypeRef → Nat
+    | .mk _ _ args => max args.length (maxArityArgs args)
+  def maxArityArgs : Args → Nat
+    | .nil => 0
+    | .arith _ r => maxArityArgs r
+    | .ty t r => max (maxArityRef t) (maxArityArgs r)
+end
+
+def maxArity (s : Schema) : Nat :=
+  s.foldl (fun m c => c.fields.foldl (fun m f => max m (maxArityRef f.ty)) (max m (max c.targs.length (maxArityRef c.result)))) 0
+
+/-- more than the number of distinct `(type, index)` keys `fillUsages` can be called with. -/
+def dfsFuel (s : Schema) : Nat := (s.length + 1) * (maxArity s + 1) + 1
 
 def dfsPass (s : Schema) (st : St) : St := (natRoots s).foldl (fun st k => fill (dfsFuel s) s st k.1 k.2) st
 
 /-- the two passes of `fillUsages` ("repeat to get all values missed in recursion"). -/
 def layout (s : Schema) : St :=
-  let st1 := dfsPass s { visited := [], bits := [], aff := [], oof := false }
+  let st1 := dfsPass s { visited := [], bits := [], aff := [], oof := false, panicked := false }
   dfsPass s { st1 with visited := [] }
 
 def natFieldIdxs (c : Comb) : List Nat :=
@@ -358,35 +373,11 @@ def mkCtx (old new : Schema) : Ctx := { os := old, ol := layout old, ns := new, 
 /-- `CheckBackwardCompatibility(newTL, oldTL)`. -/
 def lintCore (old new : Schema) : R :=
   let x := mkCtx old new
+  if x.ol.panicked || x.nl.panicked then .panic else
   (allR (typeCheck x) (typeOrder old)).andThen <|
   (allR (funcCheck x) (funcOrder old)).andThen <|
   allR (newFuncCheck x) (funcOrder new)
 
 def lintAccepts (old new : Schema) : Bool := lintCore old new == .ok
-
-/-! ### domain on which the model is claimed to follow the Go code (no out-of-range template index) -/
-
-mutual
-  def arityOkRef (s : Schema) : TypeRef → Bool
-    | .mk n _ args =>
-      (match resolve s n with
-       | some T => (typeCombs s T).all (fun c => args.length ≤ c.targs.length)
-       | none => true) && arityOkArgs s args
-  def arityOkArgs (s : Schema) : Args → Bool
-    | .nil => true
-    | .arith _ r => arityOkArgs s r
-    | .ty t r => arityOkRef s t && arityOkArgs s r
-end
-
-def namesDistinct : List String → Bool
-  | [] => true
-  | x :: xs => !xs.contains x && namesDistinct xs
-
-def wfSchema (s : Schema) : Bool :=
-  namesDistinct ((s.filter (fun c => !c.builtin)).map (·.name)) &&
-  s.all (fun c => arityOkRef s c.result && c.fields.all (fun f => arityOkRef s f.ty)) &&
-  (typeOrder s).all (fun T => match typeCombs s T with
-    | [] => true
-    | c :: cs => cs.all (fun d => d.targs.length == c.targs.length))
 
 end TLVerif.Lint
